@@ -24,6 +24,11 @@ def games_nonabs(rng, tier):
     yield from lib.gen_games(rng, N_GAMES[tier] // 3, nonabs=True)
 
 
+def games_selfloops(rng, tier):
+    for g in lib.gen_games(rng, N_GAMES[tier] // 3, nonabs=True, selfloops=True):
+        yield g
+
+
 CHECKERS = {
     'batch': XC.check_batch,
     'report': XC.check_report,
@@ -47,7 +52,8 @@ for p in ('C01', 'C02', 'C03', 'C04', 'C05', 'C06', 'C14'):
     SUITES[p] = [dict(name='solve-small-games', gen=games, checker='solve'),
                  dict(name='solve-after-solve-on-one-object', gen=games_few, checker='solve-history')]
 for p in ('C01', 'C04'):
-    SUITES[p] = SUITES[p] + [dict(name='reach-phase-nonabsorbing-finals', gen=games_nonabs, checker='reach')]
+    SUITES[p] = SUITES[p] + [dict(name='reach-phase-nonabsorbing-finals', gen=games_nonabs, checker='reach'),
+                             dict(name='reach-phase-players-may-wait', gen=games_selfloops, checker='reach')]
 SUITES['C10'] = [dict(name='solve-small-games', gen=games, checker='solve'), dict(name='repeat-sequences', gen=games_few, checker='repeat')]
 SUITES['C13'] = [dict(name='permuted-presentations', gen=games, checker='permute')]
 
